@@ -49,18 +49,15 @@ after `new(.., true)` / `clear()`); every cell that is not marked `Damaged` show
 back surface says; the image placements are those of `display` of the back surface. -/
 structure Rel (P : Params) (R : State) (scr : Screen) : Prop where
   wf : WF P scr
-  back : ∃ s0, WellPlaced P R.h R.w s0 ∧ ∀ r c, r < R.h → c < R.w → R.back r c = normR P s0 r c
+  back : ∃ s0, WellPlaced P R.h R.w s0 ∧ NormOf P R.h R.w s0 R.back
   marks : (∀ r c, R.marks r c = .empty) ∨ (∀ r c, R.marks r c = .damaged)
   shows : ∀ r c, r < R.h → c < R.w → R.marks r c = .empty →
     scr.grid r c = (display P R.h R.w R.back).grid r c
   place : ∀ r c, scr.place r c = (display P R.h R.w R.back).place r c
 
-theorem normR_nogly (P : Params) (s : Surface) (r c g : Nat) : (normR P s r c).kind ≠ .gly g := by
-  unfold normR
-  split
-  · simp [nulCell]
-  · unfold rasterise
-    cases hk : (s r c).kind <;> simp [hk]
+theorem rasterise_nogly (P : Params) (c : Cell) (g : Nat) : (rasterise P c).kind ≠ .gly g := by
+  unfold rasterise
+  cases hk : c.kind <;> simp [hk]
 
 theorem Rel.backOk {P : Params} {R : State} {scr : Screen} (hrel : Rel P R scr) : BackOk P R := by
   obtain ⟨s0, hs0, hback⟩ := hrel.back
@@ -68,40 +65,56 @@ theorem Rel.backOk {P : Params} {R : State} {scr : Screen} (hrel : Rel P R scr) 
   · intro r c
     rcases hrel.marks with h | h <;> rw [h r c] <;> simp
   · intro r c g hr hc
-    rw [hback r c hr hc]; exact normR_nogly P s0 r c g
+    rcases (hback r c hr hc).1 with h | h
+    · rw [h]; simp [nulCell]
+    · rw [h]; exact rasterise_nogly P _ g
   · intro q q' p hq hq' h1 h2
-    rw [covers_congr_normR P R.h R.w s0 R.back hs0 hback q p hq.1 hq.2] at h1
-    rw [covers_congr_normR P R.h R.w s0 R.back hs0 hback q' p hq'.1 hq'.2] at h2
+    rw [covers_congr_normOf P R.h R.w s0 R.back hback q p hq.1 hq.2] at h1
+    rw [covers_congr_normOf P R.h R.w s0 R.back hback q' p hq'.1 hq'.2] at h2
     obtain ⟨_, _, _, w4, _⟩ := hs0
     exact w4 q q' p hq.1 hq.2 hq'.1 hq'.2 h1 h2
 
 theorem before_all {q : Nat × Nat} {H : Nat} (h : q.1 < H) : Before q H 0 := Or.inl h
 
+/-- the front surface after the first pass is a normalised form of the drawn surface -/
+theorem G1Inv.normOf {P : Params} {st : State} {s : Surface} {x : P1} (G : G1Inv P st s st.h 0 x) :
+    NormOf P st.h st.w s x.front :=
+  fun r c hr hc => G.front1 r c (Or.inl hr) hc
+
+/-- cells whose content after the second pass does not matter: the areas of the images that the
+image pass erases and draws -/
+def FreeCell (P : Params) (st : State) (s : Surface) (x : P1) (r k : Nat) : Prop :=
+  ∃ q : Nat × Nat, Ins st q ∧ covers P s q (r, k) = true ∧ posIn x.images q
+
 /-- rows of the front surface after the first pass satisfy the assumptions of the second pass -/
 theorem rowOk_general (P : Params) (hP : ParamsOk P) (st : State) (s : Surface) (hs : WellPlaced P st.h st.w s)
     (x : P1) (G : G1Inv P st s st.h 0 x) (r : Nat) (hr : r < st.h) :
-    RowOk P st.w (x.front r) (x.marks r) := by
+    RowOk P st.w (x.front r) (x.marks r) (FreeCell P st s x r) := by
   obtain ⟨w1, w2, w3, w4, w5⟩ := hs
-  have hF : ∀ c, c < st.w → x.front r c = normR P s r c := by
-    intro c hc
-    rw [G.front r c]
-    have : (r < st.h ∨ r = st.h ∧ c < 0) ∧ c < st.w := ⟨Or.inl hr, hc⟩
-    rw [if_pos this]
+  have hs' : WellPlaced P st.h st.w s := ⟨w1, w2, w3, w4, w5⟩
+  have hN := G.normOf
   have hnul : isWide P nulCell = false := by simp [isWide, nulCell, hP.nul]
-  have hnotign : ∀ c, c < st.w → isWide P (s r c) = true → x.marks r c ≠ .ignored ∧ x.marks r (c + 1) ≠ .ignored := by
-    intro c hc hw
-    constructor
-    · intro hi
-      obtain ⟨q, _, hq, hcov⟩ := G.m1 r c hi
-      rw [(w5 q r c hq.1 hq.2 hr hc hw).1] at hcov; cases hcov
-    · intro hi
-      obtain ⟨q, _, hq, hcov⟩ := G.m1 r (c + 1) hi
-      rw [(w5 q r c hq.1 hq.2 hr hc hw).2] at hcov; cases hcov
-  refine ⟨?_, ?_, ?_⟩
-  · intro k ch hk hkind hw
-    rw [hF k hk] at hkind
-    simp only [normR] at hkind
-    cases hsh : shadowedRaw P s r k
+  -- a cell that is neither ignored nor free is not covered at all
+  have hunc : ∀ k, k < st.w → x.marks r k ≠ .ignored → ¬ FreeCell P st s x r k → ¬ Cov P st.h st.w s (r, k) := by
+    rintro k hk hm hfr ⟨q, q1, q2, q3⟩
+    have himg : imgOf P (s q.1 q.2) ≠ none := by
+      intro h; simp [covers, h] at q3
+    by_cases hp : posIn x.images q
+    · exact hfr ⟨q, ⟨q1, q2⟩, q3, hp⟩
+    · exact hm (G.m3 q (before_all q1) ⟨q1, q2⟩ himg hp r k q3)
+  have hnotign : ∀ k, ¬ Cov P st.h st.w s (r, k) → x.marks r k ≠ .ignored := by
+    intro k hnc hi
+    obtain ⟨q, _, hq, hcov⟩ := G.m1 r k hi
+    exact hnc ⟨q, hq.1, hq.2, hcov⟩
+  have hnotfree : ∀ k, ¬ Cov P st.h st.w s (r, k) → ¬ FreeCell P st s x r k := by
+    rintro k hnc ⟨q, hq, hcov, _⟩
+    exact hnc ⟨q, hq.1, hq.2, hcov⟩
+  refine ⟨?_, ?_, ?_, ?_, ?_⟩
+  · intro k ch hk hm hfr hkind hw
+    have hnc := hunc k hk hm hfr
+    rw [(hN r k hr hk).2.1 hnc] at hkind
+    simp only [normD] at hkind
+    cases hsh : shadowed P st.h st.w s r k
     · exfalso
       simp only [hsh, Bool.false_eq_true, if_false] at hkind
       have hk' : (s r k).kind = .chr ch := by
@@ -109,45 +122,47 @@ theorem rowOk_general (P : Params) (hP : ParamsOk P) (st : State) (s : Surface) 
         rw [hkind]
       rcases w1 r k ch hr hk hk' with h | h <;> omega
     · cases k with
-      | zero => simp [shadowedRaw] at hsh
+      | zero => simp [shadowed] at hsh
       | succ k' =>
-        simp only [shadowedRaw, Bool.and_eq_true, Bool.not_eq_true'] at hsh
-        refine ⟨k', rfl, ?_, (hnotign k' (by omega) hsh.1).1⟩
-        rw [hF k' (by omega)]
-        simp [normR, hsh.2, isWide_rasterise, hsh.1]
-  · intro k hk hwide _
-    rw [hF k hk] at hwide
-    simp only [normR] at hwide
-    cases hsh : shadowedRaw P s r k
+        simp only [shadowed, Bool.and_eq_true, Bool.not_eq_true', Option.isNone_iff_eq_none] at hsh
+        have hnc' : ¬ Cov P st.h st.w s (r, k') := (coverOf_none_iff P st.h st.w s (r, k')).1 hsh.2
+        refine ⟨k', rfl, ?_, hnotign k' hnc', hnotfree k' hnc'⟩
+        rw [(hN r k' hr (by omega)).2.1 hnc']
+        simp [normD, hsh.1.2, isWide_rasterise, hsh.1.1]
+  · intro k hk hwide hm hfr
+    have hnc := hunc k hk hm hfr
+    rw [(hN r k hr hk).2.1 hnc] at hwide
+    simp only [normD] at hwide
+    cases hsh : shadowed P st.h st.w s r k
     · simp only [hsh, Bool.false_eq_true, if_false, isWide_rasterise] at hwide
       have hfit := w2 r k hr hk hwide
-      refine ⟨hfit, ⟨0, ?_, hP.nul⟩, (hnotign k hk hwide).2⟩
-      rw [hF (k + 1) hfit]
-      have : shadowedRaw P s r (k + 1) = true := by
-        simp only [shadowedRaw, hsh, hwide]; rfl
-      simp [normR, this, nulCell]
+      have hnc1 : ¬ Cov P st.h st.w s (r, k + 1) := fun h => hnc ((wp_cut P st.h st.w s hs' r k hr hk hwide).2 h)
+      refine ⟨hfit, ⟨0, ?_, hP.nul⟩, hnotign (k + 1) hnc1, hnotfree (k + 1) hnc1⟩
+      rw [(hN r (k + 1) hr hfit).2.1 hnc1]
+      have : shadowed P st.h st.w s r (k + 1) = true := by
+        simp only [shadowed, hsh, hwide, (coverOf_none_iff P st.h st.w s (r, k)).2 hnc]; rfl
+      simp [normD, this, nulCell]
     · simp [hsh, hnul] at hwide
   · intro k hk hnc
-    rw [hF k hk] at hnc
-    simp only [normR] at hnc
-    cases hsh : shadowedRaw P s r k
-    · simp only [hsh, Bool.false_eq_true, if_false] at hnc
-      have himg : imgOf P (s r k) ≠ none := by
-        intro hi
-        cases hk0 : (s r k).kind with
-        | chr ch => exact hnc ch (by simp [rasterise, hk0])
+    have himg : imgOf P (s r k) ≠ none := by
+      intro hi
+      rcases (hN r k hr hk).1 with h | h
+      · exact hnc 0 (by rw [h]; rfl)
+      · cases hk0 : (s r k).kind with
+        | chr ch => exact hnc ch (by rw [h]; simp [rasterise, hk0])
         | img i => simp [imgOf, hk0] at hi
         | gly g => simp [imgOf, hk0] at hi
-      exact G.m5 (r, k) (before_all hr) ⟨hr, hk⟩ himg
-    · simp only [hsh, if_true] at hnc
-      exact absurd rfl (hnc 0)
-
-
-theorem normR_face_img (P : Params) (H W : Nat) (s : Surface) (hs : WellPlaced P H W s) (q : Nat × Nat)
-    (h1 : q.1 < H) (h2 : q.2 < W) (himg : imgOf P (s q.1 q.2) ≠ none) :
-    normR P s q.1 q.2 = rasterise P (s q.1 q.2) := by
-  have := wp_img_not_shadowed P H W s hs q.1 q.2 h1 h2 himg
-  simp [normR, this]
+    exact G.m5 (r, k) (before_all hr) ⟨hr, hk⟩ himg
+  · rintro k hk ⟨q, hq, hcov, hp⟩ hwide
+    have hws : isWide P (s r k) = true := by
+      rcases (hN r k hr hk).1 with h | h
+      · rw [h, hnul] at hwide; cases hwide
+      · rw [h, isWide_rasterise] at hwide; exact hwide
+    refine ⟨w2 r k hr hk hws, q, hq, ?_, hp⟩
+    rw [← w5 q r k hq.1 hq.2 hr hk hws]; exact hcov
+  · rintro k ⟨q, hq, hcov, _⟩ he
+    have := ((G.m2 r k he).2 q (before_all hq.1) hq).1
+    rw [hcov] at this; cases this
 
 /-- C01 for one frame on the whole proved domain -/
 theorem frame_general (P : Params) (hP : ParamsOk P) (R : State) (scr : Screen) (s : Surface)
@@ -159,11 +174,7 @@ theorem frame_general (P : Params) (hP : ParamsOk P) (R : State) (scr : Screen) 
   have G := pass1_general P R s hs hbok
   obtain ⟨w1, w2, w3, w4, w5⟩ := hs
   have hs' : WellPlaced P R.h R.w s := ⟨w1, w2, w3, w4, w5⟩
-  have hF : ∀ r c, r < R.h → c < R.w → (pass1 P R s).front r c = normR P s r c := by
-    intro r c hr hc
-    rw [G.front r c]
-    have : (r < R.h ∨ r = R.h ∧ c < 0) ∧ c < R.w := ⟨Or.inl hr, hc⟩
-    rw [if_pos this]
+  have hF : NormOf P R.h R.w s (pass1 P R s).front := G.normOf
   have hcmds : (frame P R s).cmds = (pass1 P R s).cmds ++
       pass2 P R.back (pass1 P R s).front (pass1 P R s).marks R.h R.w ++
       (pass1 P R s).images.flatMap (imageCmds P) := rfl
@@ -182,15 +193,19 @@ theorem frame_general (P : Params) (hP : ParamsOk P) (R : State) (scr : Screen) 
     intro r c hr hc hm
     rw [hrel.shows r c hr hc hm, (display_congr_wp P R.h R.w s0 R.back hs0 hback).1 r c hr hc]
   have hcovb : ∀ q p, q.1 < R.h → q.2 < R.w → covers P R.back q p = covers P s0 q p :=
-    fun q p h1 h2 => covers_congr_normR P R.h R.w s0 R.back hs0 hback q p h1 h2
+    fun q p h1 h2 => covers_congr_normOf P R.h R.w s0 R.back hback q p h1 h2
   -- second pass
   have hold : ∀ r k, r < R.h → k < R.w → x.marks r k = .empty → scrE.grid r k = dispN P (R.back r k) := by
     intro r k hr hk hm
     obtain ⟨m0, hno⟩ := G.m2 r k hm
-    rw [eg, hshow0 r k hr hk m0, (display_wp P hP R.h R.w s0 hs0 r k hr hk).2 (fun q h1 h2 => by
-      rw [← hcovb q (r, k) h1 h2]; exact (hno q (before_all h1) ⟨h1, h2⟩).2), hback r k hr hk]
+    have hnc0 : ∀ q : Nat × Nat, q.1 < R.h → q.2 < R.w → covers P s0 q (r, k) = false := fun q h1 h2 => by
+      rw [← hcovb q (r, k) h1 h2]; exact (hno q (before_all h1) ⟨h1, h2⟩).2
+    have hnc : ¬ Cov P R.h R.w s0 (r, k) := by
+      rintro ⟨q, q1, q2, q3⟩
+      rw [hnc0 q q1 q2] at q3; cases q3
+    rw [eg, hshow0 r k hr hk m0, (display_wp P hP R.h R.w s0 hs0 r k hr hk).2 hnc0, (hback r k hr hk).2.1 hnc]
   rw [pass2_eq]
-  have J := pass2_prefix P hP R.h R.w hsz R.back x.front x.marks
+  have J := pass2_prefix P hP R.h R.w hsz R.back x.front x.marks (FreeCell P R s x)
     (fun r hr => rowOk_general P hP R s hs' x G r hr) scrE hwfE hold R.h (Nat.le_refl _)
   generalize execAll P scrE ((List.range R.h).foldl (pass2Step P R.back x.front x.marks R.w) ([], Tr.init)).1
     = scr2 at J ⊢
@@ -227,14 +242,19 @@ theorem frame_general (P : Params) (hP : ParamsOk P) (R : State) (scr : Screen) 
       have himg0 : imgOf P (s0 q.1 q.2) ≠ none := by
         intro h; simp [covers, h] at hc0
       have hface : (s0 q.1 q.2).face = (s q.1 q.2).face := by
-        have e1 := hback q.1 q.2 q1 q2
-        rw [normR_face_img P R.h R.w s0 hs0 q q1 q2 himg0, hbq] at e1
+        have e1 := (hback q.1 q.2 q1 q2).2.2 himg0
+        rw [hbq] at e1
         have := congrArg Cell.face e1
         rw [rasterise_face, rasterise_face] at this
         exact this.symm
-      have hscr : scrE.grid r c = .glyph 32 (s q.1 q.2).face := by
+      have hnfree : ¬ FreeCell P R s x r c := by
+        rintro ⟨q', hq', hc', hp'⟩
+        have := w4 q q' (r, c) q1 q2 hq'.1 hq'.2 q3 hc'
+        rw [← this] at hp'
+        exact hnp hp'
+      have hscr : scrE.grid r c = blankOf P (s q.1 q.2).face := by
         rw [eg, hshow0 r c hr hc (hempty r c), (display_wp P hP R.h R.w s0 hs0 r c hr hc).1 q q1 q2 hc0, hface]
-      rw [J.ign r c hr hign (by rw [hscr]; simp) (by rw [hscr]; exact not_wide_glyph P 32 _ (by rw [hP.sp]; omega)),
+      rw [J.ign r c hr hign hnfree (by rw [hscr]; exact blankOf_ne_cont P _) (by rw [hscr]; exact blankOf_not_wide P hP _),
         hscr, d1 q q1 q2 q3]
     · have hno : ∀ q : Nat × Nat, q.1 < R.h → q.2 < R.w → covers P s q (r, c) = false := by
         intro q q1 q2
@@ -245,7 +265,13 @@ theorem frame_general (P : Params) (hP : ParamsOk P) (R : State) (scr : Screen) 
         intro hi
         obtain ⟨q, _, hq, hc'⟩ := G.m1 r c hi
         rw [hno q hq.1 hq.2] at hc'; cases hc'
-      rw [J.done r c hr hc hni, hF r c hr hc, d2 hno]
+      have hncov : ¬ Cov P R.h R.w s (r, c) := by
+        rintro ⟨q, q1, q2, q3⟩
+        rw [hno q q1 q2] at q3; cases q3
+      have hnfree : ¬ FreeCell P R s x r c := by
+        rintro ⟨q', hq', hc', _⟩
+        rw [hno q' hq'.1 hq'.2] at hc'; cases hc'
+      rw [J.done r c hr hc hni hnfree, (hF r c hr hc).2.1 hncov, d2 hno]
   obtain ⟨g1, g2, g3, g4⟩ := pass3_correct P hP R.h R.w s hs' x.images hI scr2 J.wf hset
   generalize execAll P scr2 (x.images.flatMap (imageCmds P)) = scr3 at g1 g2 g3 g4 ⊢
   -- placements
@@ -315,23 +341,29 @@ theorem frame_general (P : Params) (hP : ParamsOk P) (R : State) (scr : Screen) 
 
 /-! ### the other steps of a history -/
 
-theorem normR_blank (P : Params) (hP : ParamsOk P) (r c : Nat) : normR P blankSurf r c = defaultCell := by
+theorem normD_blank (P : Params) (hP : ParamsOk P) (H W r c : Nat) : normD P H W blankSurf r c = defaultCell := by
   have hw : isWide P defaultCell = false := by simp [isWide, defaultCell, hP.sp]
-  have : shadowedRaw P blankSurf r c = false := by
+  have : shadowed P H W blankSurf r c = false := by
     cases c with
     | zero => rfl
-    | succ c => simp [shadowedRaw, blankSurf, hw]
-  simp [normR, this, blankSurf, rasterise, defaultCell]
+    | succ c => simp [shadowed, blankSurf, hw]
+  simp [normD, this, blankSurf, rasterise, defaultCell]
+
+theorem normOf_blank (P : Params) (hP : ParamsOk P) (H W : Nat) :
+    NormOf P H W blankSurf (fun _ _ => defaultCell) := by
+  intro r c _ _
+  refine ⟨Or.inr (by simp [blankSurf, rasterise, defaultCell]), fun _ => (normD_blank P hP H W r c).symm, ?_⟩
+  intro h; simp [blankSurf, imgOf, defaultCell] at h
 
 theorem display_blank (P : Params) (hP : ParamsOk P) (H W : Nat) :
     (∀ r c, r < H → c < W → (display P H W (fun _ _ => defaultCell)).grid r c = .glyph 32 0) ∧
     (∀ r c, (display P H W (fun _ _ => defaultCell)).place r c = none) := by
   constructor
   · intro r c hr hc
-    have e1 : (display P H W (fun _ _ => defaultCell)).grid r c = dispN P (normR P blankSurf r c) :=
+    have e1 : (display P H W (fun _ _ => defaultCell)).grid r c = dispN P (normD P H W blankSurf r c) :=
       (display_wp P hP H W blankSurf (blank_wp P hP H W) r c hr hc).2 (by
         intro q _ _; simp [covers, blankSurf, imgOf, defaultCell])
-    rw [e1, normR_blank P hP]
+    rw [e1, normD_blank P hP]
     simp [dispN, defaultCell, hP.sp]
   · intro r c
     simp only [display]
@@ -344,7 +376,7 @@ theorem relG_damaged (P : Params) (hP : ParamsOk P) (scr : Screen) (hwf : WF P s
     (hpl : ∀ r c, scr.place r c = none) (R : State)
     (hback : R.back = fun _ _ => defaultCell) (hm : R.marks = fun _ _ => .damaged) : Rel P R scr := by
   refine ⟨hwf, ⟨blankSurf, blank_wp P hP _ _, ?_⟩, Or.inr (fun r c => by rw [hm]), ?_, ?_⟩
-  · intro r c _ _; rw [hback, normR_blank P hP]
+  · rw [hback]; exact normOf_blank P hP _ _
   · intro r c _ _ he; rw [hm] at he; cases he
   · intro r c
     rw [hpl r c, hback, (display_blank P hP R.h R.w).2 r c]
@@ -398,7 +430,7 @@ theorem relG_recreate (P : Params) (hP : ParamsOk P) (R : State) (scr : Screen) 
 theorem relG_new_blank (P : Params) (hP : ParamsOk P) (h w : Nat) (clear0 : Bool) :
     Rel P (new h w clear0) blank := by
   refine ⟨wf_blank P hP, ⟨blankSurf, blank_wp P hP _ _, ?_⟩, ?_, ?_, ?_⟩
-  · intro r c _ _; rw [normR_blank P hP]; rfl
+  · exact normOf_blank P hP h w
   · cases clear0
     · exact Or.inl (fun _ _ => by simp [new])
     · exact Or.inr (fun _ _ => by simp [new])
